@@ -223,6 +223,10 @@ class Lower:
         return call(fn, args, kw)
 
     def _inline(self, n, fn, args, kw):
+        t = self._inline_block(n, fn, args, kw)
+        return None if t is None else _expr_of_block(t)
+
+    def _inline_block(self, n, fn, args, kw):
         """Inline a call of an *unspecified* repository helper (a function no reference covers): an extracted helper is
         transparent, and whatever it does is judged at its call site."""
         prog = self.scope.program
@@ -240,7 +244,9 @@ class Lower:
             if any(fn[2] in c.methods for c in prog.subclasses(self.scope.cls, strict=True)):
                 return None
             first = [V('self')]
-        if target is None or target.qualname in CONTRACTED or target is self.scope.func:
+        if target is None or (target.qualname in CONTRACTED and target.qualname not in INLINE_ALWAYS) or target is self.scope.func:
+            return None
+        if self.scope.func is not None and target.qualname == self.scope.func.qualname:
             return None
         if target.node.args.vararg or target.node.args.kwarg or target.decorator_list_nontrivial():
             return None
@@ -265,8 +271,7 @@ class Lower:
         sub.scope.inline_depth = self.scope.inline_depth + 1
         lw = Lower(sub.scope, sub.locals, dict(bind), {})
         body = [s for s in target.node.body if not _is_doc(s)]
-        t = sub.block(body, lw, ())
-        return _expr_of_block(t)
+        return sub.block(body, lw, ())
 
     def bind(self, fn, fi, args, kw, skip):
         return bind_call(self.scope.program, fn, fi, args, kw, skip)
@@ -349,8 +354,18 @@ class Lower:
         return ('opaque', 'walrus')
 
     def _comp(self, n, elt_fn, wrap):
-        if len(n.generators) != 1 or n.generators[0].is_async:
-            return ('opaque', 'multi-generator comprehension')
+        if any(g.is_async for g in n.generators):
+            return ('opaque', 'async comprehension')
+        if len(n.generators) > 1:
+            # [e for x in xs for y in ys]  ==  flat([[e for y in ys] for x in xs])
+            inner = ast.ListComp(elt=None, generators=n.generators[1:])
+            outer_g = n.generators[0]
+
+            def inner_fn(sub):
+                fake = _FakeComp(n.generators[1:])
+                return sub._comp(fake, elt_fn, lambda t: t)
+            fake_outer = _FakeComp([outer_g])
+            return wrap(('flat', self._comp(fake_outer, inner_fn, lambda t: t)))
         g = n.generators[0]
         src = self.e(g.iter)
         names = [x.id for x in ast.walk(g.target) if isinstance(x, ast.Name)]
@@ -468,6 +483,9 @@ def _has_default(fi, name):
 
 
 CONTRACTED = set()      # qualnames covered by a reference (set by the contract engine); those are never inlined
+# shared helpers that are inlined on both sides although they have a contract of their own (so that "call the helper" and
+# "repeat its body" compare equal); their own contract is an obligation of every property that uses them
+INLINE_ALWAYS = {"puan.logic.plog.AtLeast._to_pyrs_theory"}
 
 
 def _expr_of_block(t):
@@ -479,6 +497,11 @@ def _expr_of_block(t):
         if a is not None and b is not None:
             return ('if', t[1], a, b)
     return None
+
+
+class _FakeComp:
+    def __init__(self, generators):
+        self.generators = generators
 
 
 def _is_doc(s):
@@ -567,6 +590,10 @@ class FuncLower:
                 eff = self.assign(st.target, val, lw, eff)
                 continue
             if isinstance(st, ast.Return):
+                if isinstance(st.value, ast.Call):
+                    tail = self._tail_inline(st.value, lw, eff)
+                    if tail is not None:
+                        return tail
                 v = lw.e(st.value) if st.value is not None else NONE
                 return ('ret', self.finish(v, lw), eff)
             if isinstance(st, ast.Raise):
@@ -644,6 +671,25 @@ class FuncLower:
         if self._in_loop_body:
             return ('continue', self.snapshot(lw), eff)
         return ('ret', NONE, eff)
+
+    def _tail_inline(self, n, lw, eff):
+        """`return helper(...)` of an unspecified repository helper whose body has several paths / raises: its block term
+        becomes the continuation (an extracted helper is transparent)."""
+        try:
+            args, kw = lw._args(n)
+            fn = lw.e(n.func)
+        except Exception:
+            return None
+        saved = lw.scope.inline_depth
+        t = lw._inline_block(n, fn, args, kw)
+        if t is None:
+            return None
+
+        def add_eff(x):
+            if x[0] in ('ret', 'raise') and len(x) == 3:
+                return (x[0], x[1], tuple(eff) + tuple(x[2]))
+            return None
+        return replace(t, add_eff) if eff else t
 
     _in_loop_body = False
     _loop_names = ()
@@ -736,10 +782,99 @@ class FuncLower:
         self._in_loop_body, self._loop_names = True, tuple(assigned)
         body = self.block(list(st.body), bl, ())
         self._in_loop_body, self._loop_names = saved
+        if isinstance(st, ast.For) and not st.orelse:
+            summ = self._summarise_for(idx, assigned, pos, lw, head[1], body, rest)
+            if summ is not None:
+                for n, term in summ.items():
+                    lw.env[n] = term
+                return self.block(rest, lw, eff)
         loopterm = ('loop', C(idx), C(head[0]), head[1], ('blk', init), body)
         for n in assigned:
             lw.env[n] = ('loopout', idx, pos[n])
         return self.block(rest, lw, eff + (loopterm,))
+
+    def _summarise_for(self, idx, assigned, pos, lw, iter_term, body, rest):
+        """Recognise accumulator loops:  acc.append(e) / acc = acc + e / acc.extend(e) / total += e, possibly under conditions on
+        the item, and turn them into map / filter / flat / sum terms. Returns {name: term after the loop} or None."""
+        item = ('phi', idx, '$item')
+
+        def mentions_phi(t, allow=()):
+            return any(x[0] == 'phi' and x[1] == idx and x != item and x not in allow for x in walk(t))
+
+        # all leaves must be plain `continue` without effects; conditions may only depend on the item / loop-invariant values
+        leaves = []
+
+        def collect(t, conds):
+            if t[0] == 'if':
+                if mentions_phi(t[1]):
+                    return False
+                return collect(t[2], conds + [(t[1], True)]) and collect(t[3], conds + [(t[1], False)])
+            if t[0] == 'continue' and not t[2]:
+                leaves.append((conds, t[1]))
+                return True
+            return False
+        if not collect(body, []):
+            return None
+        rest_names = set()
+        for stn in rest:
+            if isinstance(stn, ast.AST):
+                rest_names |= {n.id for n in ast.walk(stn) if isinstance(n, ast.Name)}
+        out = {}
+        for name in assigned:
+            phi = ('phi', idx, pos[name])
+            kind = None
+            for conds, blk in leaves:
+                val = dict((kw[1][1], kw[2]) for kw in blk[1]).get(pos[name])
+                if val is None:
+                    return None
+                if val == phi:
+                    continue
+                if val[0] == 'concat' and val[1] and val[1][0] == phi and not any(mentions_phi(x) for x in val[1][1:]):
+                    k2 = 'concat'
+                elif val[0] == 'binop' and val[1] == 'Add' and val[2] == phi and not mentions_phi(val[3]):
+                    k2 = 'add'
+                elif val[0] == 'binop' and val[1] == 'Add' and val[3] == phi and not mentions_phi(val[2]):
+                    k2 = 'add'
+                elif not mentions_phi(val):
+                    k2 = 'temp'          # re-assigned from scratch in the iteration: a temporary
+                else:
+                    return None
+                if kind is not None and kind != k2:
+                    return None
+                kind = k2
+            if kind is None:
+                continue                  # never changed
+            if kind == 'temp':
+                if name in rest_names:
+                    return None           # value of the last iteration is used after the loop: not summarised
+                continue
+            p = fresh('it')
+
+            def contrib(t):
+                if t[0] == 'if':
+                    return ('if', t[1], contrib(t[2]), contrib(t[3]))
+                val = dict((kw[1][1], kw[2]) for kw in t[1][1]).get(pos[name])
+                if val == phi:
+                    return ('list', ()) if kind == 'concat' else C(0)
+                if kind == 'concat':
+                    parts = val[1][1:]
+                    return parts[0] if len(parts) == 1 else ('concat', tuple(parts))
+                return val[3] if val[2] == phi else val[2]
+            c = replace(contrib(body), lambda x: V(p) if x == item else None)
+            if mentions_phi(c):
+                return None
+            init = lw.env.get(name)
+            if init is None:
+                return None
+            if kind == 'add' and _is_listy(norm(init)):
+                kind = 'concat'          # list accumulation written as  acc = acc + xs
+                c = replace(c, lambda x: ('list', ()) if x == C(0) else None) if c[0] == 'if' else c
+            if kind == 'concat':
+                out[name] = ('concat', (init, ('flat', ('map', lam([p], c), iter_term))))
+            else:
+                out[name] = ('binop', 'Add', init, call(G('sum'), [('map', lam([p], c), iter_term)]))
+        # temporaries and the loop target are dead after the loop
+        return out
 
 
 def _as_load(node):
@@ -799,6 +934,11 @@ def _splice(args):
     return out
 
 
+def aeq(a, b):
+    """alpha-equivalence (fresh lambda parameter names differ between two normalisations of the same source)"""
+    return a == b or debruijn(a) == debruijn(b)
+
+
 def norm(t):
     if not is_node(t):
         return t
@@ -816,8 +956,25 @@ def norm(t):
             return norm(('map', _lam1(lambda x: apply(f, [apply(g, [x])])), xs[2]))
         if f[0] == 'lam' and len(f[1]) == 1 and f[2] == V(f[1][0]):
             return xs                                   # map identity
+        if f[0] == 'lam' and len(f[1]) == 1 and _pairs_source(xs):
+            # elements of enumerate(...) / d.items() / zip(a, b) are pairs: (p[0], p[1]) is p
+            p = V(f[1][0])
+            pair = ('tuple', (('sub', p, C(0)), ('sub', p, C(1))))
+            if contains(f[2], lambda x: x == pair):
+                return norm(('map', ('lam', f[1], replace(f[2], lambda x: p if x == pair else None)), xs))
         if f[0] != 'lam':
             return ('map', _lam1(lambda x: apply(f, [x])), xs)   # eta-expand for uniform shape
+        return t
+    if k == 'flat':
+        m = t[1]
+        if m[0] == 'map' and m[1][0] == 'lam' and len(m[1][1]) == 1:
+            body, p, xs = m[1][2], m[1][1][0], m[2]
+            if body[0] == 'list' and len(body[1]) == 1 and body[1][0][0] != 'star':
+                return norm(('map', lam([p], body[1][0]), xs))                      # flat([[e] for x]) = [e for x]
+            if body[0] == 'if' and body[3] == ('list', ()):
+                return norm(('flat', ('map', lam([p], body[2]), ('filter', lam([p], body[1]), xs))))
+            if body[0] == 'if' and body[2] == ('list', ()):
+                return norm(('flat', ('map', lam([p], body[3]), ('filter', lam([p], norm(('not', body[1]))), xs))))
         return t
     if k == 'filter':
         f = t[1]
@@ -846,13 +1003,36 @@ def norm(t):
         return merged[0] if len(merged) == 1 else ('concat', tuple(merged))
     if k == 'zip':
         parts = _splice(t[1])
-        if len(parts) >= 2 and all(p[0] == 'map' for p in parts) and len({p[2] for p in parts}) == 1:
+        # zip(range(len(D)), X) == enumerate(X)  when X is D or a view of the dict D
+        if len(parts) == 2 and parts[0][0] == 'call' and parts[0][1] == G('range') and len(parts[0][2]) == 1 and not parts[0][3] \
+                and parts[0][2][0][0] == 'call' and parts[0][2][0][1] == G('len') and len(parts[0][2][0][2]) == 1:
+            d = parts[0][2][0][2][0]
+            x = parts[1]
+            if aeq(x, d) or (x[0] == 'call' and x[1][0] == 'attr' and aeq(x[1][1], d) and x[1][2] in ('values', 'keys', 'items')):
+                return call(G('enumerate'), [x])
+        # zip(X, enumerate(X)) == [(u[1], u) for u in enumerate(X)]
+        if len(parts) == 2 and parts[1][0] == 'call' and parts[1][1] == G('enumerate') and len(parts[1][2]) == 1 and aeq(parts[1][2][0], parts[0]):
+            return norm(('map', _lam1(lambda u: ('tuple', (norm(('sub', u, C(1))), u))), parts[1]))
+        # zip(d.keys(), d.values()) == d.items()   (and the swapped pairing)
+        if len(parts) == 2 and all(p[0] == 'call' and p[1][0] == 'attr' and p[1][2] in ('keys', 'values') and not p[2] and not p[3] for p in parts) \
+                and aeq(parts[0][1][1], parts[1][1][1]) and parts[0][1][2] != parts[1][1][2]:
+            items = call(('attr', parts[0][1][1], 'items'))
+            if parts[0][1][2] == 'keys':
+                return items
+            return norm(('map', _lam1(lambda u: ('tuple', (norm(('sub', u, C(1))), norm(('sub', u, C(0)))))), items))
+        if len(parts) >= 2 and all(p[0] == 'map' for p in parts) and all(aeq(p[2], parts[0][2]) for p in parts):
             src = parts[0][2]
             return norm(('map', _lam1(lambda x: ('tuple', tuple(apply(p[1], [x]) for p in parts))), src))
-        if len(parts) == 2 and parts[1][0] == 'map' and parts[0] == parts[1][2]:
+        if len(parts) == 2 and parts[1][0] == 'map' and aeq(parts[0], parts[1][2]):
             return norm(('map', _lam1(lambda x: ('tuple', (x, apply(parts[1][1], [x])))), parts[0]))
-        if len(parts) == 2 and parts[0][0] == 'map' and parts[1] == parts[0][2]:
+        if len(parts) == 2 and parts[0][0] == 'map' and aeq(parts[1], parts[0][2]):
             return norm(('map', _lam1(lambda x: ('tuple', (apply(parts[0][1], [x]), x))), parts[1]))
+        if len(parts) >= 2 and any(p[0] == 'map' for p in parts) and not any(p[0] == 'star' for p in parts):
+            # zip(map(f, X), Y)  ==  [(f(x), y) for (x, y) in zip(X, Y)]
+            bases = tuple(p[2] if p[0] == 'map' else p for p in parts)
+            return norm(('map', _lam1(lambda t0: ('tuple', tuple(
+                apply(p[1], [norm(('sub', t0, C(i)))]) if p[0] == 'map' else norm(('sub', t0, C(i))) for i, p in enumerate(parts)))),
+                ('zip', bases)))
         return ('zip', tuple(parts))
     if k == 'not':
         a = t[1]
@@ -914,10 +1094,27 @@ def norm(t):
         return t
     if k == 'sub':
         o, i = t[1], t[2]
+        # reading row j of an array whose row i != j was (mask-)assigned: the write is not visible
+        if o[0] == 'setitem' and i[0] == 'const' and isinstance(i[1], int) and o[2][0] == 'tuple' and len(o[2][1]) >= 1 \
+                and o[2][1][0][0] == 'const' and isinstance(o[2][1][0][1], int) and o[2][1][0][1] != i[1]:
+            return norm(('sub', o[1], i))
+        if o[0] in ('tuple', 'list') and len(o[1]) == 2 and i[0] in ('cmp', 'and', 'or', 'not') and not any(x[0] == 'star' for x in o[1]):
+            return norm(('if', i, o[1][1], o[1][0]))        # [a, b][cond] == b if cond else a
         if o[0] in ('tuple', 'list') and i[0] == 'const' and isinstance(i[1], int) and not any(x[0] == 'star' for x in o[1]):
             if -len(o[1]) <= i[1] < len(o[1]):
                 return o[1][i[1]]
         return t
+    if k == 'and' and len(t[1]) == 2:
+        a, b = t[1]
+        if a[0] == 'binop' and a[1] == 'Mult' and ((a[2] == C(1) and a[3][0] == 'cmp') or (a[3] == C(1) and a[2][0] == 'cmp')):
+            c = a[3] if a[2] == C(1) else a[2]
+            return norm(('if', c, b, C(0)))               # 1*(c) and e  ==  e if c else 0
+    if k == 'or' and len(t[1]) >= 2 and all(p[0] == 'call' and p[1] == G('issubclass') and len(p[2]) == 2 and not p[3] for p in t[1]) \
+            and len({p[2][0] for p in t[1]}) == 1:
+        classes = []
+        for p in t[1]:
+            classes.extend(p[2][1][1] if p[2][1][0] == 'tuple' else (p[2][1],))
+        return call(G('issubclass'), [t[1][0][2][0], ('tuple', tuple(classes))])
     if k == 'and' or k == 'or':
         parts = []
         for p in t[1]:
@@ -948,6 +1145,41 @@ def norm(t):
                 cur = cur[1]
             return ('attr', cur, t[2]) if cur is not o else t
         return t
+    if k == 'lam' and not isinstance(t[1], int) and t[2][0] in ('ret', 'if'):
+        e = _expr_of_block(t[2]) if _has_ret(t[2]) else None
+        if e is not None:
+            return norm(('lam', t[1], e))
+        return t
+    if k == 'dict' and any(kv[0] == 'dstar' for kv in t[1]):
+        items = []
+        for i, kv in enumerate(t[1]):
+            if kv[0] == 'dstar' and kv[1][0] == 'dict':
+                items.extend(kv[1][1])                       # {**{...}, ...}
+            elif kv[0] == 'dstar' and kv[1][0] == 'if' and kv[1][2][0] == 'dict' and kv[1][3][0] == 'dict':
+                pre, post = tuple(items), tuple(t[1][i + 1:])
+                return norm(('if', kv[1][1], ('dict', pre + (('dstar', kv[1][2]),) + post), ('dict', pre + (('dstar', kv[1][3]),) + post)))
+            else:
+                items.append(kv)
+        # later keys win
+        out = []
+        for kv in items:
+            if kv[0] == 'kw':
+                out = [o for o in out if not (o[0] == 'kw' and o[1] == kv[1])]
+            out.append(kv)
+        return ('dict', tuple(out))
+    if k in ('setitem', 'delitem') and t[1][0] == 'if' and t[2][0] == 'const' and t[1][2][0] == 'dict' and t[1][3][0] == 'dict':
+        rest = t[3:] if k == 'setitem' else ()
+        return norm(('if', t[1][1], (k, t[1][2], t[2]) + rest, (k, t[1][3], t[2]) + rest))
+    if k == 'setitem' and t[1][0] == 'dict' and t[2][0] == 'const' and isinstance(t[2][1], str):
+        items = [kv for kv in t[1][1] if not (kv[0] == 'kw' and kv[1] == t[2])]
+        if len(items) == len(t[1][1]) or t[1][1][-1][0] == 'kw' and t[1][1][-1][1] == t[2] or not any(kv[0] == 'dstar' for kv in t[1][1]):
+            return ('dict', tuple(items) + (('kw', t[2], t[3]),))
+        return t
+    if k == 'delitem' and t[1][0] == 'dict' and t[2][0] == 'const' and not any(kv[0] == 'dstar' for kv in t[1][1]):
+        items = tuple(kv for kv in t[1][1] if not (kv[0] == 'kw' and kv[1] == t[2]))
+        if len(items) != len(t[1][1]):
+            return ('dict', items)
+        return t
     if k == 'ret':
         v = t[1]
         if v[0] == 'if':
@@ -961,6 +1193,20 @@ def norm(t):
             return ('raise', v[1], t[2])
         return t
     return t
+
+
+def _has_ret(t):
+    return t[0] == 'ret' or (t[0] == 'if' and (_has_ret(t[2]) or _has_ret(t[3])))
+
+
+def _pairs_source(xs):
+    while xs[0] == 'filter':
+        xs = xs[2]
+    if xs[0] == 'call' and xs[1] == G('enumerate') and len(xs[2]) == 1:
+        return True
+    if xs[0] == 'call' and xs[1][0] == 'attr' and xs[1][2] == 'items' and not xs[2]:
+        return True
+    return xs[0] == 'zip' and len(xs[1]) == 2 and not any(p[0] == 'star' for p in xs[1])
 
 
 def _is_sum(x):
@@ -1040,6 +1286,9 @@ def norm_call(fn, args, kw):
         if g == 'map' and len(args) > 2 and not kw:
             return norm(('map', _lam1(lambda t: apply(args[0], [norm(('sub', t, C(i))) for i in range(len(args) - 1)])),
                          norm(('zip', tuple(args[1:])))))
+        if g == 'itertools.starmap' and len(args) == 2 and not kw and args[0][0] == 'lam':
+            n = len(args[0][1])
+            return norm(('map', _lam1(lambda t0: apply(args[0], [norm(('sub', t0, C(i))) for i in range(n)])), args[1]))
         if g == 'filter' and len(args) == 2 and not kw:
             return norm(('filter', args[0], args[1]))
         if g in ('list', 'iter', 'tuple') and len(args) == 1 and not kw and args[0][0] in SEQ:
@@ -1083,11 +1332,32 @@ def norm_call(fn, args, kw):
                 return a if g == 'min' else b
         if g == 'int' and len(args) == 1 and args[0][0] == 'const' and isinstance(args[0][1], int):
             return args[0]
+        if g == 'int' and len(args) == 1 and not kw and args[0][0] in ('cmp', 'not'):
+            return ('binop', 'Mult', C(1), args[0])           # int(bool) == 1*bool
+        if g == 'numpy.where' and len(args) == 3 and not kw and args[1][0] in ('const', 'glob'):
+            # numpy.where(mask, c, X)  ==  Y = X.copy(); Y[mask] = c
+            return ('setitem', call(('attr', args[2], 'copy')), args[0], args[1])
+        if g == 'sorted' and len(args) == 1 and not kw and args[0][0] == 'map' and args[0][1][0] == 'lam' and len(args[0][1][1]) == 1:
+            # positions taken from enumerate(...) (possibly filtered) are already ascending
+            m = args[0]
+            p0 = m[1][1][0]
+            src = m[2]
+            while src[0] == 'filter':
+                src = src[2]
+            if m[1][2] == ('sub', V(p0), C(0)) and src[0] == 'call' and src[1] == G('enumerate') and len(src[2]) == 1:
+                return m
         if g in ('numpy.dot',) and len(args) == 2 and not kw:
             return call(G('numpy.matmul'), args)
         if g == 'numpy.array' and len(args) == 1 and not kw and args[0][0] == 'call' and args[0][1] == G('numpy.array') \
                 and not args[0][3]:
             return args[0]
+    if fn == G('sum') and len(args) == 1 and not kw and args[0][0] == 'map' and args[0][1][0] == 'lam' and len(args[0][1][1]) == 1:
+        m = args[0]
+        body, p, xs = m[1][2], m[1][1][0], m[2]
+        if body[0] == 'if' and body[3] == C(0):
+            return norm_call(G('sum'), [norm(('map', lam([p], body[2]), ('filter', lam([p], body[1]), xs)))], [])
+        if body[0] == 'if' and body[2] == C(0):
+            return norm_call(G('sum'), [norm(('map', lam([p], body[3]), ('filter', lam([p], norm(('not', body[1]))), xs)))], [])
     if fn[0] == 'lam':
         if not any(a[0] in ('star', 'dstar') for a in args):
             ps = list(fn[1])
@@ -1104,6 +1374,8 @@ def norm_call(fn, args, kw):
                         ok = False
                 if ok and not rest:
                     return norm(subst(fn[2], bind))
+    if fn[0] == 'attr' and fn[2] == 'get' and len(args) == 2 and args[1] == NONE and not kw:
+        return call(fn, [args[0]])                     # d.get(k, None) == d.get(k)
     if fn[0] == 'attr':
         o, m = fn[1], fn[2]
         # np.array(list of k-tuples).sum(axis=0)  ->  k-tuple of sums
@@ -1232,6 +1504,10 @@ def canon(t):
             if op in ('Gt', 'Lt'):
                 p = _padd(p, {(): 1}, -1)
             return ('ge0', _mk_poly(p))
+        if op in ('Eq', 'NotEq') and ((_is_len(a) and b == C(0)) or (_is_len(b) and a == C(0))):
+            ln = a if _is_len(a) else b
+            # len(x) == 0  <=>  -len(x) >= 0 ;  len(x) != 0  <=>  len(x) - 1 >= 0      (a length is non-negative)
+            return ('ge0', _mk_poly({(ln,): -1})) if op == 'Eq' else ('ge0', _mk_poly({(ln,): 1, (): -1}))
         if op in ('Eq', 'NotEq'):
             pa, pb = _poly_of(a), _poly_of(b)
             if (pa is not None or pb is not None) and (a[0] in ('poly', 'const') or b[0] in ('poly', 'const')):
@@ -1268,16 +1544,23 @@ def canon(t):
         return t
     if k in ('and', 'or'):
         return t
+    if k == 'if' and t[1][0] != 'const':
+        a2, b2 = _assume(t[2], t[1], True), _assume(t[3], t[1], False)
+        if (a2, b2) != (t[2], t[3]):
+            return canon(('if', t[1], a2, b2))
+    if k == 'if' and t[1][0] == 'const':
+        return t[2] if t[1][1] else t[3]
     if k == 'if':
+        ch = _reorder_exclusive_chain(t)
+        if ch is not None:
+            return ch
         c = t[1]
         if c[0] == 'not':
             return ('if', c[1], t[3], t[2])
         if c[0] == 'cmp' and c[1] in ('NotEq', 'IsNot', 'NotIn'):
             return ('if', ('cmp', {'NotEq': 'Eq', 'IsNot': 'Is', 'NotIn': 'In'}[c[1]], c[2], c[3]), t[3], t[2])
-        if c[0] == 'ge0':
-            n2 = _negate_bool(c)
-            if _key(n2) < _key(c):
-                return ('if', n2, t[3], t[2])
+        if c[0] == 'ge0' and _ge0_negative_polarity(c):
+            return ('if', _negate_bool(c), t[3], t[2])
         return t
     if k == 'call' and t[1] in (G('min'), G('max')) and len(t[2]) == 2 and not t[3]:
         o = _ordered(t[2][0], t[2][1])
@@ -1295,13 +1578,133 @@ def canon(t):
     return t
 
 
+def _assume(t, cond, value):
+    """rewrite t under the knowledge that `cond` is `value` (both canonical): occurrences fold; d.get(k) is d[k] where k in d"""
+    facts = []
+    if cond[0] == 'and' and value:
+        facts = [(c, True) for c in cond[1]]
+    elif cond[0] == 'or' and not value:
+        facts = [(c, False) for c in cond[1]]
+    else:
+        facts = [(cond, value)]
+    facts = [(c, v) for c, v in facts if c[0] in ('cmp', 'ge0', 'not')]      # only boolean-valued conditions (not truthiness of a value)
+    if not facts:
+        return t
+    neg = [(_negate_bool(c), not v) for c, v in facts if c[0] in ('cmp', 'ge0') or (c[0] == 'not' and c[1][0] in ('cmp', 'ge0', 'not', 'and', 'or'))]
+    known = dict(facts + neg)
+    present = [(c[2], c[3]) for c, v in known.items() if c[0] == 'cmp' and ((c[1] == 'In' and v) or (c[1] == 'NotIn' and not v))]
+
+    def f(x):
+        if x in known and x[0] != 'const':
+            return C(known[x])
+        if x[0] == 'call' and x[1][0] == 'attr' and x[1][2] == 'get' and x[2] and not x[3]:
+            if (x[2][0], x[1][1]) in present:
+                return ('sub', x[1][1], x[2][0])
+        if x[0] in ('and', 'or'):
+            parts = [p for p in x[1] if not (p[0] == 'const' and bool(p[1]) == (x[0] == 'and'))]
+            if any(p[0] == 'const' and bool(p[1]) != (x[0] == 'and') for p in parts):
+                return C(x[0] == 'or')
+            if len(parts) != len(x[1]):
+                return C(x[0] == 'and') if not parts else (parts[0] if len(parts) == 1 else (x[0], tuple(parts)))
+        if x[0] == 'not' and x[1][0] == 'const':
+            return C(not x[1][1])
+        if x[0] == 'if' and x[1][0] == 'const':
+            return x[2] if x[1][1] else x[3]
+        return None
+    if not any(y in known or (y[0] == 'call' and y[1][0] == 'attr' and y[1][2] == 'get') for y in walk(t)):
+        return t
+    return replace(t, f)
+
+
+def _is_len(t):
+    return t[0] == 'call' and t[1] == G('len') and len(t[2]) == 1 and not t[3]
+
+
+def _ge0_negative_polarity(c):
+    """True if the ge0 guard should be flipped for a canonical polarity (leading non-constant coefficient negative)"""
+    p = c[1]
+    if p[0] == 'poly':
+        for co, mono in p[1]:
+            if mono != ():
+                return co < 0
+    return False
+
+
+def _guard_on(c):
+    """(scrutinee, predicate over int) for guards  e == k / e != k / p(e) >= 0 with p = ±e + k ; else None"""
+    if c[0] == 'cmp' and c[1] == 'Eq' and (c[2][0] == 'const') != (c[3][0] == 'const'):
+        e, k = (c[3], c[2]) if c[2][0] == 'const' else (c[2], c[3])
+        if isinstance(k[1], int) and not isinstance(k[1], bool):
+            return e, (lambda x, k=k[1]: x == k)
+    if c[0] == 'ge0':
+        p = _poly_of(c[1]) if c[1][0] in ('poly', 'const') else {(c[1],): 1}
+        if p is None:
+            return None
+        atoms = [(m, co) for m, co in p.items() if m != ()]
+        if len(atoms) == 1 and len(atoms[0][0]) == 1 and atoms[0][1] in (1, -1):
+            k0 = p.get((), 0)
+            co = atoms[0][1]
+            return atoms[0][0][0], (lambda x, co=co, k0=k0: co * x + k0 >= 0)
+    return None
+
+
+def _reorder_exclusive_chain(t):
+    """if c1: A1 elif c2: A2 ... else D  with pairwise exclusive guards on one integer scrutinee: canonical branch order"""
+    chain = []
+    cur = t
+    scrut = None
+
+    def same_scrut_if(x):
+        if x[0] != 'if':
+            return False
+        gx = _guard_on(x[1])
+        return gx is not None and (scrut is None or gx[0] == scrut)
+    while cur[0] == 'if':
+        g = _guard_on(cur[1])
+        if g is None or (scrut is not None and g[0] != scrut):
+            break
+        scrut = g[0]
+        if same_scrut_if(cur[2]) and not same_scrut_if(cur[3]):
+            # flipped link: the chain continues in the then-branch
+            chain.append((_negate_bool(cur[1]), (lambda x, pr=g[1]: not pr(x)), cur[3]))
+            cur = cur[2]
+        else:
+            chain.append((cur[1], g[1], cur[2]))
+            cur = cur[3]
+    if len(chain) < 2:
+        return None
+    default = cur
+    consts = [x[1] for c, _, _ in chain for x in walk(c) if x[0] == 'const' and isinstance(x[1], int)]
+    lo, hi = min(consts + [0]) - 3, max(consts + [0]) + 3
+    for x in range(lo, hi + 1):
+        if sum(1 for _, pr, _ in chain if pr(x)) > 1:
+            return None                      # not mutually exclusive
+    ordered = sorted(chain, key=lambda e: _key(e[0]))
+    if [e[0] for e in ordered] == [e[0] for e in chain] and all(c2 == t2 for (c2, _, _), t2 in zip(chain, _chain_guards(t, len(chain)))):
+        return None
+    out = default
+    for c, _, a in reversed(ordered):
+        out = ('if', c, a, out)
+    return out
+
+
+def _chain_guards(t, n):
+    out = []
+    cur = t
+    while cur[0] == 'if' and len(out) < n:
+        out.append(cur[1])
+        cur = cur[3]
+    return out
+
+
 def _is_boolean(t):
     return t[0] in ('cmp', 'ge0', 'not') or (t[0] == 'const' and isinstance(t[1], bool))
 
 
 def _negate_bool(t):
-    if t[0] == 'cmp' and t[1] in ('Eq', 'NotEq'):
-        return ('cmp', 'NotEq' if t[1] == 'Eq' else 'Eq', t[2], t[3])
+    if t[0] == 'cmp' and t[1] in ('Eq', 'NotEq', 'In', 'NotIn', 'Is', 'IsNot'):
+        flip = {'Eq': 'NotEq', 'NotEq': 'Eq', 'In': 'NotIn', 'NotIn': 'In', 'Is': 'IsNot', 'IsNot': 'Is'}
+        return ('cmp', flip[t[1]], t[2], t[3])
     if t[0] == 'not':
         return t[1]
     if t[0] == 'ge0':
